@@ -37,7 +37,9 @@ def run_batches(exe, tapes, scratch, env_base, engine, nworkers, tag):
             env = dict(env_base)
             env["VH_OUT"] = out
             env["VH_SCRATCH"] = os.path.join(out, "s")
-            p = subprocess.run([exe, "--stats", "--engine", engine] + todo, env=env, stdout=subprocess.PIPE, stderr=subprocess.STDOUT, cwd=out)
+            from vcheck import _die_with_parent
+            p = subprocess.run([exe, "--stats", "--engine", engine] + todo, env=env, stdout=subprocess.PIPE, stderr=subprocess.STDOUT, cwd=out,
+                               preexec_fn=_die_with_parent)
             txt = p.stdout.decode("utf-8", "replace")
             done = re.findall(r"^REPLAY (\S+) verdict=(\d) .*? sig=(.*?) msg=(.*)$", txt, re.M)
             for path, verdict, sig, msg in done:
